@@ -171,6 +171,25 @@ func Run(in Input) (*common.Case, error) {
 		<-s.arrived
 	}
 	final := below(in.World.Cfg.Base, k)
+	// "... so one later umount fully unmounts the layer": afterwards, with nobody else around, one
+	// umount -all by a fresh invocation; what is then still mounted below the base path is observed
+	fs.SyscallMount = func(src, tgt, fstype string, flags uintptr, data string) error { return k.Mount(src, tgt, fstype, flags, data) }
+	fs.SyscallUnmount = func(tgt string, flags int) error { return k.Unmount(tgt, flags) }
+	fs.GetAlternateProbeMountsCursor = func() fs.LineReader {
+		return fs.NewTextInputCursor("mountinfo", strings.NewReader(k.Mountinfo()))
+	}
+	laterErr := ""
+	func() {
+		defer func() {
+			if e := recover(); e != nil {
+				laterErr = fmt.Sprint("panic: ", e)
+			}
+		}()
+		if err := runOne(in.World.Cfg, lcw.Cmd{Kind: "umount", Flag: true}); err != nil {
+			laterErr = err.Error()
+		}
+	}()
+	rest := below(in.World.Cfg.Base, k)
 
 	callsTerm := func(cs []Call) string {
 		out := make([]string, len(cs))
@@ -192,7 +211,7 @@ func Run(in Input) (*common.Case, error) {
 	}
 	term := q.App("C20.MkCase", lcw.CfgTerm(in.World.Cfg), lcw.FsTerm(fs0), q.HxList(k0), lcw.CmdTerm(in.A), lcw.CmdTerm(in.B),
 		q.List(sch), q.HxList(final), callsTerm(s.procs[0].calls), callsTerm(s.procs[1].calls),
-		q.Bool(s.procs[0].ok), q.Bool(s.procs[1].ok))
+		q.Bool(s.procs[0].ok), q.Bool(s.procs[1].ok), q.HxList(rest))
 	raw, _ := json.Marshal(in)
 	var inAny interface{}
 	json.Unmarshal(raw, &inAny)
@@ -222,7 +241,8 @@ func Run(in Input) (*common.Case, error) {
 		Nontrivial: !serial && len(s.procs[0].calls) > 1 && len(s.procs[1].calls) > 1,
 		Classes:    []string{"cmds=" + in.A.Kind + "/" + in.B.Kind, fmt.Sprintf("final=%d", len(final))},
 		Desc: map[string]interface{}{"input": inAny, "obs": map[string]interface{}{"k0": k0, "final": final,
-			"calls_a": s.procs[0].calls, "calls_b": s.procs[1].calls, "ok_a": s.procs[0].ok, "ok_b": s.procs[1].ok}}}
+			"calls_a": s.procs[0].calls, "calls_b": s.procs[1].calls, "ok_a": s.procs[0].ok, "ok_b": s.procs[1].ok,
+			"after_later_umount_all": rest, "later_umount_error": laterErr}}}
 	return c, nil
 }
 
@@ -235,6 +255,10 @@ func gen(r *rng.R) Input {
 		{Fstype: "bind", Source: "$$self/packages", Mount: "/mnt/own"}}
 	names := []string{"base1", "mid", "leaf", "other"}
 	n := 2 + r.Intn(3)
+	apart := r.Chance(1, 5) // two invocations that share no mountpoint: different branches over a mounted base
+	if apart {
+		n = 4
+	}
 	ws := lcw.WorldSpec{BaseName: "b", HostLayout: "plain", HostDirs: []string{cfg.Base + "/host/repos", cfg.Base + "/host/distfiles"}}
 	for i := 0; i < n; i++ {
 		l := lcw.LayerSpec{Name: names[i], HasConfig: true, HasBuild: true, Minimal: true, Mountpoints: true, HasPackages: true}
@@ -242,6 +266,9 @@ func gen(r *rng.R) Input {
 			l.Base = names[i-1]
 			if i == 3 {
 				l.Base = names[r.Intn(2)]
+				if apart {
+					l.Base = names[0]
+				}
 			}
 			l.HasWork, l.HasUpper = true, true
 		}
@@ -258,6 +285,16 @@ func gen(r *rng.R) Input {
 		in.World.Steps = append(in.World.Steps, lcw.StepIn{Cmd: lcw.Cmd{Kind: "mount", A: pick()}})
 	}
 	leaf := ws.Layers[len(ws.Layers)-1].Name
+	if apart {
+		ws.Layers[3].Base, ws.Layers[3].HasWork, ws.Layers[3].HasUpper = names[0], true, true
+		in = Input{World: lcw.BuildInput(ws)}
+		in.World.Steps = append(in.World.Steps, lcw.StepIn{Cmd: lcw.Cmd{Kind: "mount", A: names[0]}})
+		in.A, in.B = lcw.Cmd{Kind: "mount", A: names[1+r.Intn(2)]}, lcw.Cmd{Kind: "mount", A: names[3]}
+		for i := 8 + r.Intn(40); i > 0; i-- {
+			in.Sched = append(in.Sched, r.Bool())
+		}
+		return in
+	}
 	switch r.Intn(4) {
 	case 0, 1:
 		t := pick()
